@@ -125,6 +125,22 @@ def impl(case):
         except Exception as e:
             steps.append(["refused"]); continue
         steps.append(_obs(r)); cur = r
+        # what was derived stays what it is when its source is made adaptive afterwards and grows (and the other way round)
+        if op[0] == "project" and len(steps) == 1 and d.get("special", "none") == "none" and all(getattr(b, "adaptive_allowed", False) and not b.includes_right_edge for b in h._binnings):
+            import copy as _copy
+            keep = _copy.deepcopy(steps[0])
+            try:
+                src = h.copy(); rr = src.projection(*a)
+                src.set_adaptive(True)
+                far = [float(src.get_bin_right_edges(i)[-1]) + 3.5 * float(src.get_bin_widths(i)[-1]) for i in range(src.ndim)]
+                src.fill(far)
+                if sx.enc(_obs(rr)) != sx.enc(keep): steps[0] = ["projection-changed-when-its-source-grew"]
+                rr2 = src.projection(*a); rr2.set_adaptive(True)
+                before_src = sx.enc(_obs(src))
+                rr2.fill(float(rr2.bin_right_edges[-1]) + 9.25 if rr2.ndim == 1 else [float(rr2.get_bin_right_edges(i)[-1]) + 9.25 for i in range(rr2.ndim)])
+                if sx.enc(_obs(src)) != before_src: steps[0] = ["source-changed-when-its-projection-grew"]
+            except (OverflowError, MemoryError):
+                pass      # contents at the limits of a narrow integer type: growth itself is not this check's business
     if d["data"] != "none":
         direct_ok = True
         if all(o[0] == "project" for o in d["ops"]) and cur is not h and all(s[0] == "ok" for s in steps):
